@@ -18,7 +18,7 @@
              "stringlit/charconst are cut off at their entry (recording stand-ins); what they consume is SCAN.escape's business",
              "identifier-nondigit = ASCII letters and underscore (no universal character names, no bytes >= 0x80)",
              "u8 character constants are C23 (N2418, documented in /repo/doc/c23.md)",
-             "spelling buffer: only the first allocation (0 -> 256) is modelled; growth of an allocated buffer is asserted unreachable for tokens inside the window (growth itself: SCAN.buf, SCAN.nextchar)",
+             "the spelling buffer already has its initial capacity 256 (any scanner state after the first spelled token); growth is asserted unreachable for tokens inside the window (first allocation and doubling: SCAN.buf, SCAN.nextchar)",
              "harness mode; frame stated by POST clauses"]
 }
 */
@@ -88,7 +88,7 @@ harness(void)
 	IN(size_t, in_line);
 	IN(size_t, in_col);
 	IN(bool, in_saw);
-	IN(bool, in_havebuf);
+	bool in_havebuf = true;   /* GS_SMALL_TOKENS: buffer of initial capacity, see scan_common.h */
 	ING(size_t, g_j);
 
 	__CPROVER_assume(in_m <= GS_LMAX && g_j < GS_LMAX);
